@@ -22,6 +22,7 @@ def _code(toks):
 class Src:
     def __init__(self, expr, mutable, step=None, take=None, skip=None):
         self.expr, self.mutable, self.step, self.take, self.skip = expr, mutable, step, take, skip
+        self.enumerate = False
 
 def _parse_method_chain(toks):
     """toks: code tokens of an expression `E.m1(args).m2(args)...` -> (base_tokens, [(name, args_tokens)])
@@ -85,7 +86,13 @@ def _parse_chain(toks):
         base = pre
         calls = calls[idx:]
         names = names[idx:]
-    src = Src(''.join(t.text if t.kind != 'ws' else ' ' for t in base), names[0] == 'iter_mut')
+    base_txt = ''.join(t.text if t.kind != 'ws' else ' ' for t in base)
+    src = Src(base_txt, names[0] == 'iter_mut')
+    mrange = re.match(r'^(.*)\[\s*([^\[\]]+?)\s*\.\.\s*\]$', base_txt.strip())
+    if mrange:
+        # E[LO..].iter()  ==  E.iter().skip(LO)
+        src.expr = mrange.group(1).strip()
+        src.skip = mrange.group(2).strip()
     rest = []
     k = 1
     while k < len(calls):
@@ -96,6 +103,8 @@ def _parse_chain(toks):
             src.take = text_of(args).strip()
         elif nm == 'skip' and src.skip is None and src.step is None:
             src.skip = text_of(args).strip()
+        elif nm == 'enumerate' and not args and k == len(calls) - 1:
+            src.enumerate = True
         elif nm == 'zip':
             other = _parse_chain(args)
             if other is None:
@@ -145,6 +154,11 @@ class Ctx:
 def _gen_loop(ctx, srcs, names, body_text, fired):
     ctx.k += 1
     K = ctx.k
+    enum_name = None
+    if len(srcs) == 1 and srcs[0].enumerate:
+        if len(names) != 2:
+            return None
+        enum_name, names = names[0], [names[1]]
     if len(names) != len(srcs):
         return None
     # renaming of shadowing parameters
@@ -187,6 +201,8 @@ def _gen_loop(ctx, srcs, names, body_text, fired):
     lines.append(f'let mut i__{K}: usize = 0;')
     lines.append(f'while i__{K} < n__{K}')
     lines.append('{')
+    if enum_name is not None:
+        lines.append(f'let {enum_name}: usize = i__{K};')
     for new, s in binds:
         idx = f'i__{K}'
         if s.step is not None:
